@@ -1,19 +1,21 @@
 import GV.Model.NativeScript
 import GV.Gen.RuleLists
+import GV.Gen.NativeScriptIds
 /-!
 C29 — Native scripts evaluate as the ledger defines them.
 
-`eval (goCtx t)` is what `UtxoValidateNativeScripts` computes for a transaction
-context `t` (optional validity start / TTL, witness key hashes); `specEval t` is
-the ledger's `evalTimelock`.  The full statement `C29_full` is false for the
-code as it stands (absent bounds are encoded as 0 / MaxUint64): `C29_witness_*`.
-`eval_eq_spec_partial` proves equality for every script and context outside the
-decidable class `boundary`.  All theorems are over unbounded script trees.
+`eval (goCtx t)` is what `UtxoValidateNativeScripts` computes for a decoded transaction with
+context `t` (optional validity start / TTL, witness key hashes, Dijkstra guards); `specEval t` is
+the ledger's `evalTimelock`.  Since the `fix:` commit that made the rule read the presence of the
+two bounds from the preserved body bytes (`common.ValidityBounds`, `EvaluateWithBounds`) the full
+statement `C29_full` is a theorem.  For transactions WITHOUT preserved bytes (constructed in
+memory) a zero bound still counts as absent: `eval_eq_spec_unpreserved_partial` + witness.
+All theorems are over unbounded script trees.
 -/
 namespace GV.Props.C29
 open GV.Model.NativeScript GV.Lib.CborLite
 
-/-- Full statement (evaluation clause). -/
+/-- Full statement (evaluation clause), for decoded transactions. -/
 def C29_full : Prop :=
   ∀ (t : TxCtx) (s : Script), hashes28 s = true → eval (goCtx t) s = specEval t s
 
@@ -22,94 +24,140 @@ theorem fixN_self (h : Bytes) (hl : h.length = 28) : fixN 28 h = h := by
   rw [List.take_append_of_le_length (by omega)]
   exact List.take_of_length_le (by omega)
 
+theorem guard_eq (g : Option (List (Nat × Bytes))) (x : Nat × Bytes) :
+    (match credSet g with | none => false | some l => l.contains x) =
+    (match g with | none => false | some l => l.contains x) := by
+  cases g with
+  | none => rfl
+  | some l => cases l <;> simp [credSet]
+
 mutual
-theorem eval_eq_spec_partial (t : TxCtx) :
-    ∀ s : Script, hashes28 s = true → boundary t s = false → eval (goCtx t) s = specEval t s
+theorem eval_eq_spec (t : TxCtx) :
+    ∀ s : Script, hashes28 s = true → eval (goCtx t) s = specEval t s
+  | .pubkey h, h28 => by
+    simp only [hashes28, beq_iff_eq] at h28
+    simp only [eval, specEval, goCtx, fixN_self h h28]
+  | .all l, h28 => by
+    simp only [hashes28] at h28
+    simp only [eval, specEval]; exact all_eq t l h28
+  | .any l, h28 => by
+    simp only [hashes28] at h28
+    simp only [eval, specEval]; exact any_eq t l h28
+  | .nOfK n l, h28 => by
+    simp only [hashes28] at h28
+    simp only [eval, specEval]; rw [count_eq t l h28]
+  | .before s, _ => by
+    rcases t with ⟨st, tl, ks, gs⟩
+    cases st <;> simp [eval, specEval, goCtx]
+  | .hereafter s, _ => by
+    rcases t with ⟨st, tl, ks, gs⟩
+    cases tl <;> simp [eval, specEval, goCtx]
+  | .guard ty h, _ => by
+    simp only [eval, specEval, goCtx]
+    exact guard_eq t.guards (ty, h)
+theorem all_eq (t : TxCtx) :
+    ∀ l : List Script, hashes28L l = true → evalAll (goCtx t) l = specAll t l
+  | [], _ => by simp [evalAll, specAll]
+  | s :: r, h28 => by
+    simp only [hashes28L, Bool.and_eq_true] at h28
+    simp only [evalAll, specAll, eval_eq_spec t s h28.1, all_eq t r h28.2]
+theorem any_eq (t : TxCtx) :
+    ∀ l : List Script, hashes28L l = true → evalAny (goCtx t) l = specAny t l
+  | [], _ => by simp [evalAny, specAny]
+  | s :: r, h28 => by
+    simp only [hashes28L, Bool.and_eq_true] at h28
+    simp only [evalAny, specAny, eval_eq_spec t s h28.1, any_eq t r h28.2]
+theorem count_eq (t : TxCtx) :
+    ∀ l : List Script, hashes28L l = true → countTrue (goCtx t) l = specCount t l
+  | [], _ => by simp [countTrue, specCount]
+  | s :: r, h28 => by
+    simp only [hashes28L, Bool.and_eq_true] at h28
+    simp only [countTrue, specCount, eval_eq_spec t s h28.1, count_eq t r h28.2]
+end
+
+/-- **The full statement holds** (decoded transactions). -/
+theorem C29_full_holds : C29_full := fun t s h => eval_eq_spec t s h
+
+/-- The rule's verdict: the first failing script is the first one the ledger semantics fails. -/
+theorem rule_eq_spec (t : TxCtx) (l : List Script) (h28 : hashes28L l = true) :
+    (ruleFirstFail t l).isNone = specAll t l := by
+  unfold ruleFirstFail
+  have key : ∀ (l : List Script) (i : Nat), hashes28L l = true →
+      (firstFail (goCtx t) l i).isNone = specAll t l := by
+    intro l
+    induction l with
+    | nil => intro i _; rfl
+    | cons s r ih =>
+      intro i h
+      simp only [hashes28L, Bool.and_eq_true] at h
+      simp only [firstFail, specAll, eval_eq_spec t s h.1]
+      cases specEval t s with
+      | true => simpa using ih (i + 1) h.2
+      | false => simp
+  exact key l 0 h28
+
+mutual
+/-- Transactions without preserved bytes: equality outside the class `boundary`. -/
+theorem eval_eq_spec_unpreserved_partial (t : TxCtx) :
+    ∀ s : Script, hashes28 s = true → boundary t s = false → eval (goCtx t false) s = specEval t s
   | .pubkey h, h28, _ => by
     simp only [hashes28, beq_iff_eq] at h28
     simp only [eval, specEval, goCtx, fixN_self h h28]
   | .all l, h28, hb => by
     simp only [hashes28] at h28; simp only [boundary] at hb
-    simp only [eval, specEval]; exact all_eq t l h28 hb
+    simp only [eval, specEval]; exact all_eq_u t l h28 hb
   | .any l, h28, hb => by
     simp only [hashes28] at h28; simp only [boundary] at hb
-    simp only [eval, specEval]; exact any_eq t l h28 hb
+    simp only [eval, specEval]; exact any_eq_u t l h28 hb
   | .nOfK n l, h28, hb => by
     simp only [hashes28] at h28; simp only [boundary] at hb
-    simp only [eval, specEval]; rw [count_eq t l h28 hb]
+    simp only [eval, specEval]; rw [count_eq_u t l h28 hb]
   | .before s, _, hb => by
-    rcases t with ⟨st, tl, ks⟩
+    rcases t with ⟨st, tl, ks, gs⟩
     cases st with
-    | none =>
-      simp only [boundary, Option.isNone_none, Bool.true_and, beq_eq_false_iff_ne, ne_eq] at hb
-      simp only [eval, specEval, goCtx, Option.getD_none, decide_eq_false_iff_not, Nat.le_zero_eq]
-      exact hb
-    | some v => simp [eval, specEval, goCtx]
+    | none => simp [eval, specEval, goCtx]
+    | some v =>
+      by_cases hv : v = 0
+      · subst hv
+        simp only [boundary, beq_self_eq_true, Bool.true_and, beq_eq_false_iff_ne, ne_eq] at hb
+        simp [eval, specEval, goCtx, hb]
+      · simp [eval, specEval, goCtx, hv]
   | .hereafter s, _, hb => by
-    rcases t with ⟨st, tl, ks⟩
+    rcases t with ⟨st, tl, ks, gs⟩
     cases tl with
-    | none =>
-      simp only [boundary, Option.isNone_none, Bool.true_and, Bool.or_eq_false_iff,
-        decide_eq_false_iff_not] at hb
-      simp only [eval, specEval, goCtx, Option.getD_none, ↓reduceIte, decide_eq_false_iff_not]
-      exact hb.1
+    | none => simp [eval, specEval, goCtx]
     | some e =>
       by_cases he : e = 0
-      · subst he
-        simp only [boundary, Option.isNone_some, Bool.false_and, Bool.false_or, beq_self_eq_true,
-          Bool.true_and, decide_eq_false_iff_not] at hb
-        simp only [eval, specEval, goCtx, Option.getD_some, ↓reduceIte, Nat.zero_le, decide_true,
-          decide_eq_true_eq]
-        unfold max64 at *; omega
+      · subst he; simp [boundary] at hb
       · simp [eval, specEval, goCtx, he]
-  | .guard _ _, _, _ => by simp [eval, specEval, goCtx]
-theorem all_eq (t : TxCtx) :
-    ∀ l : List Script, hashes28L l = true → boundaryL t l = false → evalAll (goCtx t) l = specAll t l
+  | .guard ty h, _, _ => by
+    simp only [eval, specEval, goCtx]
+    exact guard_eq t.guards (ty, h)
+theorem all_eq_u (t : TxCtx) :
+    ∀ l : List Script, hashes28L l = true → boundaryL t l = false →
+      evalAll (goCtx t false) l = specAll t l
   | [], _, _ => by simp [evalAll, specAll]
   | s :: r, h28, hb => by
     simp only [hashes28L, Bool.and_eq_true] at h28
     simp only [boundaryL, Bool.or_eq_false_iff] at hb
-    simp only [evalAll, specAll, eval_eq_spec_partial t s h28.1 hb.1, all_eq t r h28.2 hb.2]
-theorem any_eq (t : TxCtx) :
-    ∀ l : List Script, hashes28L l = true → boundaryL t l = false → evalAny (goCtx t) l = specAny t l
+    simp only [evalAll, specAll, eval_eq_spec_unpreserved_partial t s h28.1 hb.1, all_eq_u t r h28.2 hb.2]
+theorem any_eq_u (t : TxCtx) :
+    ∀ l : List Script, hashes28L l = true → boundaryL t l = false →
+      evalAny (goCtx t false) l = specAny t l
   | [], _, _ => by simp [evalAny, specAny]
   | s :: r, h28, hb => by
     simp only [hashes28L, Bool.and_eq_true] at h28
     simp only [boundaryL, Bool.or_eq_false_iff] at hb
-    simp only [evalAny, specAny, eval_eq_spec_partial t s h28.1 hb.1, any_eq t r h28.2 hb.2]
-theorem count_eq (t : TxCtx) :
+    simp only [evalAny, specAny, eval_eq_spec_unpreserved_partial t s h28.1 hb.1, any_eq_u t r h28.2 hb.2]
+theorem count_eq_u (t : TxCtx) :
     ∀ l : List Script, hashes28L l = true → boundaryL t l = false →
-      countTrue (goCtx t) l = specCount t l
+      countTrue (goCtx t false) l = specCount t l
   | [], _, _ => by simp [countTrue, specCount]
   | s :: r, h28, hb => by
     simp only [hashes28L, Bool.and_eq_true] at h28
     simp only [boundaryL, Bool.or_eq_false_iff] at hb
-    simp only [countTrue, specCount, eval_eq_spec_partial t s h28.1 hb.1, count_eq t r h28.2 hb.2]
+    simp only [countTrue, specCount, eval_eq_spec_unpreserved_partial t s h28.1 hb.1, count_eq_u t r h28.2 hb.2]
 end
-
-mutual
-theorem boundary_false (t : TxCtx) (h1 : t.start.isNone = false) (h2 : t.ttl.isNone = false)
-    (h3 : (t.ttl == some 0) = false) : ∀ s : Script, boundary t s = false
-  | .pubkey _ => by simp [boundary]
-  | .all l => by simp only [boundary]; exact boundaryL_false t h1 h2 h3 l
-  | .any l => by simp only [boundary]; exact boundaryL_false t h1 h2 h3 l
-  | .nOfK _ l => by simp only [boundary]; exact boundaryL_false t h1 h2 h3 l
-  | .before _ => by simp [boundary, h1]
-  | .hereafter _ => by simp [boundary, h2, h3]
-  | .guard _ _ => by simp [boundary]
-theorem boundaryL_false (t : TxCtx) (h1 : t.start.isNone = false) (h2 : t.ttl.isNone = false)
-    (h3 : (t.ttl == some 0) = false) : ∀ l : List Script, boundaryL t l = false
-  | [] => by simp [boundaryL]
-  | s :: r => by simp [boundaryL, boundary_false t h1 h2 h3 s, boundaryL_false t h1 h2 h3 r]
-end
-
-/-- With both bounds present and a non-zero TTL nothing is lost: the rule evaluates every
-    script exactly as the ledger does. -/
-theorem eval_eq_spec_bounds_present (st e : Nat) (he : e ≠ 0) (ks : List Bytes) (s : Script)
-    (h28 : hashes28 s = true) :
-    eval (goCtx ⟨some st, some e, ks⟩) s = specEval ⟨some st, some e, ks⟩ s := by
-  apply eval_eq_spec_partial _ s h28
-  exact boundary_false _ (by simp) (by simp) (by simp [he]) s
 
 /-- n-of-k counts the sub-scripts that evaluate true (no short-circuit artefact). -/
 theorem nOfK_count (c : GoCtx) (n : Nat) (l : List Script) :
@@ -141,47 +189,35 @@ theorem pubkey_iff (c : GoCtx) (h : Bytes) (hl : h.length = 28) :
   simp [eval, fixN_self h hl]
 
 /-- "invalid-before holds only if the transaction has a validity start no earlier than the
-    bound" — true of the rule except for bound 0 (next theorem). -/
-theorem before_sound (t : TxCtx) (s : Nat) (hs : s ≠ 0) :
+    bound" — for every bound, 0 included. -/
+theorem before_sound (t : TxCtx) (s : Nat) :
     eval (goCtx t) (.before s) = true → ∃ st, t.start = some st ∧ s ≤ st := by
-  rcases t with ⟨st, tl, ks⟩
-  cases st with
-  | none => simp [eval, goCtx]; omega
-  | some v => simp [eval, goCtx]
+  rcases t with ⟨st, tl, ks, gs⟩
+  cases st <;> simp [eval, goCtx]
 
 /-- "invalid-hereafter holds only if the transaction has an upper bound no later than the
-    bound" — true of the rule except for bound ≥ MaxUint64. -/
-theorem hereafter_sound (t : TxCtx) (s : Nat) (hs : s < max64) :
+    bound" — for every bound, MaxUint64 included. -/
+theorem hereafter_sound (t : TxCtx) (s : Nat) :
     eval (goCtx t) (.hereafter s) = true → ∃ e, t.ttl = some e ∧ e ≤ s := by
-  rcases t with ⟨st, tl, ks⟩
-  cases tl with
-  | none => simp [eval, goCtx]; omega
-  | some e =>
-    by_cases he : e = 0
-    · simp [eval, goCtx, he]
-    · simp [eval, goCtx, he]
+  rcases t with ⟨st, tl, ks, gs⟩
+  cases tl <;> simp [eval, goCtx]
 
-/-- Witness 1: no validity start, script `InvalidBefore 0`: the rule accepts, the ledger does not. -/
-theorem C29_witness_start :
-    eval (goCtx ⟨none, none, []⟩) (.before 0) = true ∧ specEval ⟨none, none, []⟩ (.before 0) = false := by
+/-- The three inputs on which the rule diverged from the ledger before the repair
+    (absent start vs `InvalidBefore 0`, absent TTL vs `InvalidHereafter MaxUint64`, present TTL 0)
+    now agree. -/
+theorem C29_fixed_witnesses :
+    eval (goCtx ⟨none, none, [], none⟩) (.before 0) = false ∧
+    eval (goCtx ⟨none, none, [], none⟩) (.hereafter max64) = false ∧
+    eval (goCtx ⟨none, some 0, [], none⟩) (.hereafter 7) = true := by
   decide
 
-/-- Witness 2: no TTL, script `InvalidHereafter MaxUint64`. -/
-theorem C29_witness_ttl :
-    eval (goCtx ⟨none, none, []⟩) (.hereafter max64) = true ∧
-    specEval ⟨none, none, []⟩ (.hereafter max64) = false := by
+/-- Without preserved bytes a present zero bound is still taken for absent. -/
+theorem unpreserved_witness :
+    eval (goCtx ⟨some 0, some 0, [], none⟩ false) (.before 0) = false ∧
+    specEval ⟨some 0, some 0, [], none⟩ (.before 0) = true ∧
+    eval (goCtx ⟨some 0, some 0, [], none⟩ false) (.hereafter 7) = false ∧
+    specEval ⟨some 0, some 0, [], none⟩ (.hereafter 7) = true := by
   decide
-
-/-- Witness 3: TTL present and 0 is treated as absent: the ledger's `0 ≤ 7` holds, the rule says no. -/
-theorem C29_witness_ttl_zero :
-    eval (goCtx ⟨none, some 0, []⟩) (.hereafter 7) = false ∧
-    specEval ⟨none, some 0, []⟩ (.hereafter 7) = true := by
-  decide
-
-theorem C29_full_false : ¬ C29_full := by
-  intro h
-  have := h ⟨none, none, []⟩ (.before 0) (by decide)
-  revert this; decide
 
 mutual
 /-- More witnesses never invalidate a script (no negation in the language). -/
@@ -224,10 +260,17 @@ theorem rules_listed :
       "UtxoValidateNativeScripts" ∈ l := by
   decide
 
+/-- Regenerated tie: the type-id switch of `NativeScript.UnmarshalCBOR` (re-extracted on every
+    run) maps exactly the ids the model's parser accepts to the structures it builds. -/
+theorem gen_type_ids :
+    (∀ e ∈ GV.Gen.NativeScriptIds.table, ctorName e.1 = some e.2) ∧
+    (∀ id, id < 32 → (ctorName id).isSome = (GV.Gen.NativeScriptIds.table.map (·.1)).contains id) := by
+  decide
+
 /-- Non-vacuity of the partial theorem: a nested script with both kinds of time lock, evaluated
     true by both sides outside the boundary class. -/
 example :
-    let t : TxCtx := ⟨some 10, some 20, [List.replicate 28 1]⟩
+    let t : TxCtx := ⟨some 10, some 20, [List.replicate 28 1], none⟩
     let s : Script := .all [.pubkey (List.replicate 28 1), .nOfK 1 [.before 11, .hereafter 20], .any [.before 3]]
     hashes28 s = true ∧ boundary t s = false ∧ eval (goCtx t) s = true ∧ specEval t s = true := by
   decide
